@@ -1,5 +1,7 @@
 import ScyllaVerif.Model.Util
 import ScyllaVerif.Model.FrameHdr
+import ScyllaVerif.Model.C08Value
+import ScyllaVerif.Model.C08Tablet
 /-! Line-protocol driver for C08.
 
 Cases:
@@ -101,6 +103,39 @@ def pkStr (pk : List (Nat × Nat)) : String :=
   let sorted := pk.foldl (fun acc x => ins x acc) []
   lst (sorted.map (fun p => toString p.1 ++ ":" ++ toString p.2))
 
+/-! Typed decoding (`rows_iter::<Row>()`): the column types of the C08 type parser model as C01's `CqlTy`. -/
+
+def nativeToCql : Native → ScyllaVerif.Cql.NativeTy
+  | .ascii => .ascii | .bigint => .bigint | .blob => .blob | .boolean => .boolean | .counter => .counter
+  | .decimal => .decimal | .double => .double | .float => .float | .int => .int | .timestamp => .timestamp
+  | .uuid => .uuid | .text => .text | .varint => .varint | .timeuuid => .timeuuid | .inet => .inet
+  | .date => .date | .time => .time | .smallint => .smallint | .tinyint => .tinyint | .duration => .duration
+
+mutual
+def tyToCql : Ty → ScyllaVerif.Cql.CqlTy
+  | .native n => .native (nativeToCql n)
+  | .list _ t => .list (tyToCql t)
+  | .set _ t => .set (tyToCql t)
+  | .map _ k v => .map (tyToCql k) (tyToCql v)
+  | .tuple ts => .tuple (tysToCql ts)
+  | .udt _ _ _ fs => .udt "" "" (fieldsToCql fs)
+  | .vector t d => .vector (tyToCql t) d
+def tysToCql : List Ty → List ScyllaVerif.Cql.CqlTy
+  | [] => []
+  | t :: ts => tyToCql t :: tysToCql ts
+def fieldsToCql : List (Bytes × Ty) → List (String × ScyllaVerif.Cql.CqlTy)
+  | [] => []
+  | (_, t) :: fs => ("", tyToCql t) :: fieldsToCql fs
+end
+
+/-- ` typed=<rows decoded>[:err]` — `rows_iter::<Row>()` consumed until its first error. -/
+def typedStr (cols : List ColSpec) (n : Nat) (raw : Bytes) : String :=
+  match ScyllaVerif.C08V.rowsP utf8ok (cols.map (fun c => tyToCql c.ty)) n 0 raw with
+  | .ok (done, none) => s!" typed={done}"
+  | .ok (done, some _) => s!" typed={done}:err"
+  | .err _ => " typed=?"
+  | .panic site => " typed=MODEL-PANIC " ++ site
+
 def cellStr : Option Bytes → String
   | none => "null"
   | some b => hx b
@@ -117,7 +152,9 @@ def rowsStageStr (rs : RowsStage) : String :=
     let errS := match rs.rowErr with
       | none => ""
       | some (r, c, k) => " rowerr=" ++ toString r ++ ":" ++ toString c ++ ":" ++ k
-    "src=" ++ src ++ " " ++ metaStr d.rmeta ++ " rc=" ++ toString d.rowsCount ++ " " ++ rowsS ++ errS
+    let n := if d.rmeta.cols.isEmpty then min d.rowsCount ZERO_COL_ROW_CAP else d.rowsCount
+    "src=" ++ src ++ " " ++ metaStr d.rmeta ++ " rc=" ++ toString d.rowsCount ++ " " ++ rowsS ++ errS ++
+      typedStr d.rmeta.cols n d.rawRows
 
 def respStr (f : Features) (r : Response) (rs : Option RowsStage) : String :=
   match r with
@@ -144,6 +181,22 @@ def respStr (f : Features) (r : Response) (rs : Option RowsStage) : String :=
        | none => "?")
 
 def hdrStr (h : Header) : String := s!"h={h.flags},{h.stream},{h.opcode}"
+
+/-- ` tab=…`: `RawTablet::from_custom_payload` on the custom payload (the `HashMap` keeps the last value of a key). -/
+def tabStr (e : Ext) : String :=
+  match e.payload with
+  | none => ""
+  | some kvs =>
+    match (kvs.filter (fun p => p.1 == asciiBytes "tablets-routing-v1")).getLast? with
+    | none => " tab=none"
+    | some p =>
+      match ScyllaVerif.C08T.parsePayloadP p.2 with
+      | .ok (a, b, reps) => s!" tab=ok:{a}:{b}:{reps.length}"
+      | .err .deserialization => " tab=err:deserialization"
+      | .err .typecheck => " tab=err:typecheck"
+      | .err .shardnum => " tab=err:shardnum"
+      | .err .wrongrange => " tab=err:wrongrange"
+      | .panic site => " tab=MODEL-PANIC " ++ site
 
 def extStr (e : Ext) : String :=
   "t=" ++ optHx e.trace ++ " w=" ++ lst (e.warnings.map hx) ++ " p=" ++
@@ -213,11 +266,11 @@ def runFrame (w : List String) (impl : String) : String :=
           match o with
           | .err k =>
             match parseExt h.flags { buf := body, uni := uni } with
-              | (.ok ext, _) => hdrStr h ++ ztok ++ " " ++ extStr ext ++ " err " ++ k
+              | (.ok ext, _) => hdrStr h ++ ztok ++ " " ++ extStr ext ++ tabStr ext ++ " err " ++ k
               | (_, _) => hdrStr h ++ ztok ++ " err " ++ k
           | .panic k => "MODEL-PANIC " ++ k
           | .ok d =>
-            let line := hdrStr h ++ ztok ++ " " ++ extStr d.ext ++ " " ++ respStr f d.resp d.rowsStage
+            let line := hdrStr h ++ ztok ++ " " ++ extStr d.ext ++ tabStr d.ext ++ " " ++ respStr f d.resp d.rowsStage
             line
     | _, _, _ => "bad-case"
   | _, _ => "bad-case"
